@@ -65,15 +65,20 @@ Op(op, f, g) == [op |-> op, f |-> f, g |-> g]
 DataOps == {"write", "copy"}
 Delimiters == DataOps \cup {"close", "creat"}
 
-\* index of the next operation after j-1 that delimits the data of file f (0: none)
-RECURSIVE NextOnFile(_, _, _)
-NextOnFile(ops, j, f) ==
+\* index of the first operation at or after j on file f whose kind is in S (0: none)
+RECURSIVE NextOf(_, _, _, _)
+NextOf(ops, j, f, S) ==
     IF j > Len(ops) THEN 0
-    ELSE IF ops[j].f = f /\ ops[j].op \in Delimiters THEN j
-    ELSE NextOnFile(ops, j + 1, f)
+    ELSE IF ops[j].f = f /\ ops[j].op \in S THEN j
+    ELSE NextOf(ops, j + 1, f, S)
 
-\* a chunk completes the file when no further chunk follows before the file is closed
-LastChunk(ops, i) == LET j == NextOnFile(ops, i + 1, ops[i].f) IN j = 0 \/ ops[j].op \notin DataOps
+\* a chunk completes the file when no further chunk follows before the file is closed for good (a file
+\* that is closed and opened again for appending - build.ninja~ - is still being written)
+LastChunk(ops, i) ==
+    LET f == ops[i].f
+        j == NextOf(ops, i + 1, f, Delimiters)
+        r == IF j = 0 THEN 0 ELSE NextOf(ops, j + 1, f, {"append", "creat", "rename", "unlink", "write", "copy"})
+    IN j = 0 \/ (ops[j].op \notin DataOps /\ ~(ops[j].op = "close" /\ r # 0 /\ ops[r].op = "append"))
 
 Apply(fs, ops, i) ==
     LET o == ops[i]
@@ -86,7 +91,7 @@ Apply(fs, ops, i) ==
          [] o.op = "rename" ->
                \* a source the script never produced (a file outside the watched set) is complete new content
                LET src == IF fs[o.f].st = "absent" THEN C("full", "new", FALSE) ELSE fs[o.f]
-               IN [fs EXCEPT ![o.g] = src, ![o.f] = Absent]
+               IN IF o.f = o.g THEN fs ELSE [fs EXCEPT ![o.f] = Absent, ![o.g] = src]
          [] o.op \in {"unlink", "rmdir"} -> [fs EXCEPT ![o.f] = Absent]
          [] o.op = "mkdir"  -> [fs EXCEPT ![o.f] = IsDir]
          [] OTHER -> fs
@@ -97,7 +102,8 @@ Apply(fs, ops, i) ==
 (*   fresh   the directory was not configured before (old values = the     *)
 (*           defaults)                                                      *)
 (*   failed  the command ends with an error by itself (not killed)         *)
-(*   pre     the state files before the command: sequence of [f, st]       *)
+(*   pre     the state files before the command: sequence of [f, st, ver]  *)
+(*           (ver is "old", or "older" for a left-over of an earlier run)  *)
 
 NamesOf(sc) == ({ sc.pre[j].f : j \in 1..Len(sc.pre) }
                 \cup { sc.ops[j].f : j \in 1..Len(sc.ops) }
@@ -108,7 +114,7 @@ PreState(sc) ==
     [n \in NamesOf(sc) |->
         IF \E j \in 1..Len(sc.pre) : sc.pre[j].f = n
         THEN LET j == CHOOSE j \in 1..Len(sc.pre) : sc.pre[j].f = n
-             IN IF sc.pre[j].st = "dir" THEN IsDir ELSE C(sc.pre[j].st, "old", TRUE)
+             IN IF sc.pre[j].st = "dir" THEN IsDir ELSE C(sc.pre[j].st, sc.pre[j].ver, TRUE)
         ELSE Absent]
 
 RECURSIVE Run(_, _)
